@@ -60,6 +60,11 @@ func init() {
 					_, _ = codon.CompromiseCodonTable(codon.GetCodonTable(other), codon.GetCodonTable(cs.Id), 0.1)
 				})
 				quietly(func() { _ = codon.AddCodonTable(codon.GetCodonTable(cs.Id), codon.GetCodonTable(other)) })
+				// ... nor is training this code's usage weights on a gene that lacks some amino acids (or everything):
+				// which amino acid a codon stands for does not depend on how often it is used
+				quietly(func() {
+					_ = codon.GetCodonTable(cs.Id).OptimizeTable([]string{"ATGGCTAAAGGTGAACTGGCTAAATAA", "ATGAAATGA", "NNN", "ATGTGGTGTCATTAG"}[(cs.Id+len(cs.S)+len(cs.Codon))%4])
+				})
 			}
 			t := codon.GetCodonTable(cs.Id)
 			switch cs.K {
